@@ -45,3 +45,77 @@ def replay_run(monitor_classes, rep, shim_factory=None, drive=None):
     if x.status != "ok":
         print(f"execution status: {x.status}: {x.exc}")
     return out
+
+
+# --------------------------------------------------------------------------------------
+# lifecycle exploration (C06, C07, C08, C18): scripted sprouting, G/L/S choices
+# --------------------------------------------------------------------------------------
+
+LIFE_SHAPES_Q = [
+    ("DE", "DE"), ("SEA", "CMAf"), ("SHADE", "LOC"), ("LHS", "SOB"), ("MWEA", "CMAw"), ("GA", "SHADE"),
+    ("DE", "SEA", "DE"), ("SEA", "DE", "CMAf"), ("LHS", "SOB", "DE"), ("SEAX", "CMAs", "LOC"), ("DEd", "SEAA", "SHADE"),
+]
+
+
+def baseline_points(desc, monitor_classes=()):
+    x = Execution(desc, [], monitor_classes).run()
+    return [list(p) for p in x.w.ch.points] if x.w is not None else []
+
+
+def split_units(desc, bound, kinds, extra=None):
+    """Units for one world: the baseline alone, then one unit per first deviation."""
+    pts = baseline_points(desc)
+    us = [dict(desc=desc, bound=bound, kinds=kinds, start=[], solo=(bound > 0), **(extra or {}))]
+    if bound > 0:
+        for i, (kind, label, n) in enumerate(pts):
+            if kind in kinds:
+                for alt in range(1, n):
+                    us.append(dict(desc=desc, bound=bound, kinds=kinds, start=[[i, alt]], solo=False, **(extra or {})))
+    return us
+
+
+def lifecycle_descs(tier, seed, hib_values=(False, True), objs=("twofunnel",), maximize=(False,)):
+    s = 1 + seed % 1000
+    out = []
+    # (a) complete enumeration over L and S choices: small worlds
+    small = [("DE", "SEA"), ("SEA", "CMAf")] if tier == "quick" else [("DE", "SEA"), ("SEA", "CMAf"), ("SHADE", "LOC"), ("LHS", "DEd")]
+    for eng in small:
+        for L in (1, 2):
+            for hib in hib_values:
+                out.append(("complete", dict(engines=list(eng), gens=1, Mh=3, hib=hib, seed=s, choices="LS",
+                                             sprout={"kind": "scripted", "L": L, "default": 1}, obj=objs[0])))
+    # (b) deviation-bounded over G, L and S
+    shapes = LIFE_SHAPES_Q if tier == "quick" else LIFE_SHAPES_Q + [tuple(x) for x in rep_shapes()]
+    k = 0
+    lscs = [None, {"kind": "metaepoch", "m": 2}, "allchildren", {"kind": "steadiness", "n": 2, "dev": 0.5}]
+    for eng in shapes:
+        for hib in hib_values:
+            for mx in maximize:
+                L = 1 + k % 3
+                dl = [None, 1, 2][k % 3]
+                lsc = [lscs[(k + j) % len(lscs)] for j in range(len(eng))]
+                gsc = [{"kind": "horizon"}, {"kind": "evals", "n": 60}, {"kind": "horizon"}][k % 3]
+                out.append(("bounded", dict(engines=list(eng), gens=1 + k % 2, Mh=4, hib=hib, seed=s, choices="GLS", lsc=lsc,
+                                            gsc=gsc, maximize=mx, obj=objs[k % len(objs)],
+                                            sprout={"kind": "scripted", "L": L, "default": 1 + (k % 2), "demelimit": dl})))
+                k += 1
+    return out
+
+
+def lifecycle_units(tier, seed, **kw):
+    us = []
+    b = 2 if tier == "quick" else 3
+    for mode, desc in lifecycle_descs(tier, seed, **kw):
+        if mode == "complete":
+            us += split_units(desc, 99, "LS", {"mode": mode})
+        else:
+            us += split_units(desc, b, "GLS", {"mode": mode})
+    return us
+
+
+def run_split_unit(check_id, unit, monitor_classes, nontrivial_rule=None, drive=None, shim_factory=None):
+    res = Result()
+    explore(res, check_id, {k: v for k, v in unit.items() if k != "desc"}, unit["desc"], monitor_classes,
+            bound=unit["bound"], kinds=unit["kinds"], start=unit["start"], solo=unit["solo"],
+            nontrivial_rule=nontrivial_rule, drive=drive, shim_factory=shim_factory)
+    return res
